@@ -177,43 +177,6 @@ func shrinkInit(sc *Scenario) []*Scenario {
 	return out
 }
 
-// shrinkStmts proposes scenarios with one statement of client ci removed;
-// when keepLast is set the last statement (the one under judgement) stays.
-func shrinkStmts(sc *Scenario, ci int, keepLast bool) []*Scenario {
-	var out []*Scenario
-	if ci >= len(sc.Clients) {
-		return nil
-	}
-	n := len(sc.Clients[ci].Stmts)
-	last := n
-	if keepLast {
-		last = n - 1
-	}
-	for i := 0; i < last; i++ {
-		c := cloneScenario(sc)
-		s := c.Clients[ci].Stmts
-		c.Clients[ci].Stmts = append(append([]Stmt{}, s[:i]...), s[i+1:]...)
-		out = append(out, c)
-	}
-	return out
-}
-
-func shrinkExtraPolls(sc *Scenario) []*Scenario {
-	var out []*Scenario
-	for ci := range sc.Clients {
-		for si := range sc.Clients[ci].Stmts {
-			ex := sc.Clients[ci].Stmts[si].Extra
-			for k := range ex {
-				c := cloneScenario(sc)
-				e := c.Clients[ci].Stmts[si].Extra
-				c.Clients[ci].Stmts[si].Extra = append(append([]string{}, e[:k]...), e[k+1:]...)
-				out = append(out, c)
-			}
-		}
-	}
-	return out
-}
-
 func shrinkConfig(sc *Scenario) []*Scenario {
 	var out []*Scenario
 	if sc.Cfg.Alias {
@@ -232,16 +195,6 @@ func shrinkConfig(sc *Scenario) []*Scenario {
 			c.Cfg.Batch = b
 			out = append(out, c)
 		}
-	}
-	return out
-}
-
-func shrinkFaults(sc *Scenario) []*Scenario {
-	var out []*Scenario
-	for i := range sc.Faults {
-		c := cloneScenario(sc)
-		c.Faults = append(append([]Fault{}, sc.Faults[:i]...), sc.Faults[i+1:]...)
-		out = append(out, c)
 	}
 	return out
 }
